@@ -2,6 +2,7 @@ package rules
 
 import (
 	"fmt"
+	"go/token"
 	"go/types"
 	"sort"
 	"strings"
@@ -790,8 +791,11 @@ func runC20(p *core.Prog, r *core.Report, tier string) {
 					continue
 				}
 				rangeDesc := rangeCollectionDesc(p, ds, f, l)
+				// the other safe form: the parent never stops receiving — it ranges over the channel until a goroutine that
+				// has waited for every sender closes it, and does not leave that loop or return ahead of it
+				drained := drainedUntilClosed(p, f, g, a)
 				for _, c := range caps {
-					ok := c == "len("+rangeDesc+")"
+					ok := c == "len("+rangeDesc+")" || drained
 					r.Check(ok, "C20.3", construct, p.Pos(g.Pos()), "channel capacity "+c+" equals the number of goroutines started",
 						"one goroutine per element of "+rangeDesc+" sends on a channel of capacity "+c+": senders beyond the buffer block for ever once the parent has stopped receiving (goroutine leak per call)")
 				}
@@ -1043,4 +1047,192 @@ func deleteDependsOnSuccess(ds *core.Describer, f *ssa.Function, del ssa.Instruc
 		}
 	})
 	return out
+}
+
+// makeChanOf follows a channel value in f to the make that created it (through re-typing and single-assignment cells).
+func makeChanOf(v ssa.Value) *ssa.MakeChan {
+	for i := 0; i < 6; i++ {
+		switch x := v.(type) {
+		case *ssa.MakeChan:
+			return x
+		case *ssa.ChangeType:
+			v = x.X
+		case *ssa.UnOp:
+			if x.Op != token.MUL {
+				return nil
+			}
+			switch c := x.X.(type) {
+			case *ssa.Alloc:
+				var stored ssa.Value
+				n := 0
+				if c.Referrers() != nil {
+					for _, ref := range *c.Referrers() {
+						if st, ok := ref.(*ssa.Store); ok && st.Addr == ssa.Value(c) {
+							stored = st.Val
+							n++
+						}
+					}
+				}
+				if n != 1 {
+					return nil
+				}
+				v = stored
+			case *ssa.FreeVar:
+				b := core.FreeVarBinding(c)
+				a, ok := b.(*ssa.Alloc)
+				if !ok {
+					return nil
+				}
+				var stored ssa.Value
+				n := 0
+				if a.Referrers() != nil {
+					for _, ref := range *a.Referrers() {
+						if st, ok := ref.(*ssa.Store); ok && st.Addr == ssa.Value(a) {
+							stored = st.Val
+							n++
+						}
+					}
+				}
+				if n != 1 {
+					return nil
+				}
+				v = stored
+			default:
+				return nil
+			}
+		default:
+			return nil
+		}
+	}
+	return nil
+}
+
+// drainedUntilClosed: the channel handed to the goroutine started at g is made in f; f receives from it in a
+// `for … range ch` loop that has no early exit; a goroutine started by f closes it after a WaitGroup.Wait; every
+// sender goroutine started in g's loop is handed (or captures) a wait group and defers Done; and f has no return
+// between the start of the fan-out and the end of the draining loop.
+func drainedUntilClosed(p *core.Prog, f *ssa.Function, g *ssa.Go, ch ssa.Value) bool {
+	mk := makeChanOf(ch)
+	if mk == nil || mk.Parent() != f {
+		return false
+	}
+	// the draining loop
+	var drain *core.Loop
+	core.EachInstr(f, func(in ssa.Instruction) {
+		u, ok := in.(*ssa.UnOp)
+		if !ok || u.Op != token.ARROW || !u.CommaOk || makeChanOf(u.X) != mk {
+			return
+		}
+		if !strings.Contains(u.Block().Comment, "rangechan") {
+			return
+		}
+		for _, l := range p.Loops(f) {
+			if l.Contains(u.Pos()) || l.Stmt.Pos() == u.Pos() || (l.Stmt.Pos() <= u.Pos() && u.Pos() <= l.Stmt.End()) {
+				if drain == nil || l.Stmt.Pos() > drain.Stmt.Pos() {
+					drain = l
+				}
+			}
+		}
+	})
+	if drain == nil || len(drain.EarlyExits()) > 0 {
+		return false
+	}
+	// closed after Wait, in a goroutine
+	isWG := func(c *ssa.CallCommon, name string) bool {
+		callee := c.StaticCallee()
+		return callee != nil && callee.Name() == name && callee.Pkg != nil && callee.Pkg.Pkg.Path() == "sync" && callee.Signature.Recv() != nil && strings.HasSuffix(callee.Signature.Recv().Type().String(), "sync.WaitGroup")
+	}
+	closed := false
+	core.EachInstr(f, func(in ssa.Instruction) {
+		g2, ok := in.(*ssa.Go)
+		if !ok {
+			return
+		}
+		mc, ok := g2.Call.Value.(*ssa.MakeClosure)
+		if !ok {
+			return
+		}
+		fn, ok := mc.Fn.(*ssa.Function)
+		if !ok {
+			return
+		}
+		var wait ssa.Instruction
+		core.EachInstr(fn, func(in2 ssa.Instruction) {
+			if c, ok := in2.(*ssa.Call); ok && isWG(&c.Call, "Wait") && wait == nil {
+				wait = c
+			}
+		})
+		if wait == nil {
+			return
+		}
+		core.EachInstr(fn, func(in2 ssa.Instruction) {
+			c, ok := in2.(*ssa.Call)
+			if !ok {
+				return
+			}
+			b, ok := c.Call.Value.(*ssa.Builtin)
+			if !ok || b.Name() != "close" || len(c.Call.Args) != 1 || !core.InstrDominates(wait, c) {
+				return
+			}
+			arg := c.Call.Args[0]
+			for i, prm := range fn.Params {
+				if ssa.Value(prm) == arg && i < len(g2.Call.Args) {
+					arg = g2.Call.Args[i]
+				}
+			}
+			if makeChanOf(arg) == mk && addsPrecede(p, f, g2, isWG) {
+				closed = true
+			}
+		})
+	})
+	if !closed {
+		return false
+	}
+	// the sender defers Done
+	body := funcValueOf(g.Call.Value)
+	if body == nil {
+		return false
+	}
+	done := false
+	core.EachInstr(body, func(in ssa.Instruction) {
+		if d, ok := in.(*ssa.Defer); ok && isWG(&d.Call, "Done") {
+			done = true
+		}
+	})
+	if !done {
+		return false
+	}
+	// no return between the fan-out and the end of the draining loop
+	okRet := true
+	core.EachInstr(f, func(in ssa.Instruction) {
+		if ret, ok := in.(*ssa.Return); ok && ret.Pos().IsValid() && ret.Pos() > g.Pos() && ret.Pos() < drain.Stmt.End() {
+			okRet = false
+		}
+	})
+	return okRet && drain.Stmt.Pos() > g.Pos()
+}
+
+// addsPrecede: every WaitGroup.Add of f is executed before the goroutine started at closer can reach its Wait — the
+// Add comes earlier in f, and where it sits in a loop, the loop has ended (a closer started ahead of the Adds can see
+// the count at zero and close the channel while senders are still to come).
+func addsPrecede(p *core.Prog, f *ssa.Function, closer *ssa.Go, isWG func(*ssa.CallCommon, string) bool) bool {
+	ok := true
+	n := 0
+	core.EachInstr(f, func(in ssa.Instruction) {
+		c, isCall := in.(*ssa.Call)
+		if !isCall || !isWG(&c.Call, "Add") {
+			return
+		}
+		n++
+		if !c.Pos().IsValid() || c.Pos() >= closer.Pos() {
+			ok = false
+			return
+		}
+		for _, l := range p.Loops(f) {
+			if l.Contains(c.Pos()) && l.Stmt.End() >= closer.Pos() {
+				ok = false
+			}
+		}
+	})
+	return ok && n > 0
 }
